@@ -263,6 +263,21 @@ def run_unit(uname, ucfg, tier, keep=False, extra_kani_args=()):
             except Exception as e:       # replay is best effort; the violation stands without it
                 for f in res.failures:
                     f.replay_error = str(e)
+                for f in res.failures:
+                    f.replay_error = str(e)
+            # A counterexample that Kani itself turned into a concrete test, and that test PASSES when the
+            # real code is compiled natively and run on it, is a trace of the model checker that the real
+            # code does not follow (seen with CBMC 6.11: memcpy from a `match`-selected string literal).
+            # Only refutations that replay on the real code are believed: such a harness is UNDECIDED.
+            spurious = [f for f in res.failures if getattr(f, "confirmed", None) is False
+                        and (getattr(f, "replay_test", None) or {}).get("native_result") == "ok"]
+            if spurious:
+                res.failures = [f for f in res.failures if f not in spurious]
+                res.spurious = [{"harness": f.harness["name"], "clause": f.clause, "input": getattr(f, "failing_input", None)} for f in spurious]
+                if not res.failures:
+                    res.status = "undecided"
+                    res.reason = "spurious counterexample: Kani's counterexample for %s passes when replayed natively on the real code (%s)" % (
+                        ", ".join(sorted(set(f.harness["name"] for f in spurious))), spurious[0].clause)
         res.verified = sum(1 for f in res.functions if f["success"])
         res.errors = len(res.failures)
         return res
